@@ -103,6 +103,12 @@ func readSvgConsts(file string) (*svgConsts, error) {
 						}
 					case *ast.CompositeLit:
 						c.structs[n.Name] = kvMap(v)
+					case *ast.BinaryExpr: // e.g. maxGridRounds = evyWidth * scaleFactor * 10
+						if d.Tok == token.CONST {
+							if x, ok := c.intExpr(v); ok {
+								c.ints[n.Name] = x
+							}
+						}
 					}
 				}
 			}
@@ -163,6 +169,11 @@ func readSvgConsts(file string) (*svgConsts, error) {
 							}
 						}
 					case *ast.BinaryExpr:
+						if n.Op == token.LEQ { // `i <= 1000`, as loop condition or inside `if !(i <= 1000)`
+							if fl, ok := litFloat(n.Y); ok {
+								c.gridBound = fl
+							}
+						}
 						if n.Op == token.REM {
 							if fl, ok := litFloat(n.Y); ok {
 								c.gridEvery = int64(fl)
@@ -175,6 +186,61 @@ func readSvgConsts(file string) (*svgConsts, error) {
 		}
 	}
 	return c, nil
+}
+
+// intExpr evaluates a constant expression built from integer literals, already
+// known integer constants and * + -.
+func (c *svgConsts) intExpr(e ast.Expr) (int64, bool) {
+	switch e := e.(type) {
+	case *ast.BasicLit:
+		if e.Kind == token.INT {
+			x, err := strconv.ParseInt(e.Value, 0, 64)
+			return x, err == nil
+		}
+	case *ast.Ident:
+		x, ok := c.ints[e.Name]
+		return x, ok
+	case *ast.ParenExpr:
+		return c.intExpr(e.X)
+	case *ast.BinaryExpr:
+		a, ok1 := c.intExpr(e.X)
+		b, ok2 := c.intExpr(e.Y)
+		if ok1 && ok2 {
+			switch e.Op {
+			case token.MUL:
+				return a * b, true
+			case token.ADD:
+				return a + b, true
+			case token.SUB:
+				return a - b, true
+			}
+		}
+	}
+	return 0, false
+}
+
+// minGridUnit of pkg/evaluator/builtin.go (the smallest unit gridnFunc accepts), if declared.
+func readMinGridUnit(file string) (float64, bool) {
+	f, err := parser.ParseFile(token.NewFileSet(), file, nil, 0)
+	if err != nil {
+		return 0, false
+	}
+	for _, d := range f.Decls {
+		gd, ok := d.(*ast.GenDecl)
+		if !ok {
+			continue
+		}
+		for _, sp := range gd.Specs {
+			if vs, ok := sp.(*ast.ValueSpec); ok {
+				for i, n := range vs.Names {
+					if n.Name == "minGridUnit" && i < len(vs.Values) {
+						return litFloat(vs.Values[i])
+					}
+				}
+			}
+		}
+	}
+	return 0, false
 }
 
 func c19CoqStr(s string) string {
@@ -352,6 +418,20 @@ func genSvgConsts(dir string) error {
 	fmt.Fprintf(&b, "Definition grid_thick_width : float := %s. (* %v *)\n", coqFloat(c.gridThick), c.gridThick)
 	fmt.Fprintf(&b, "Definition grid_bound : float := %s. (* %v *)\n", coqFloat(c.gridBound), c.gridBound)
 	fmt.Fprintf(&b, "Definition grid_thick_every : nat := %d.\n", c.gridEvery)
+	// constants of the gridn bound (proposed_fixes/C19-gridn-tiny-unit.diff): read from the
+	// source when they are there, otherwise the values the proposed fix introduces
+	if x, ok := c.ints["maxGridRounds"]; ok {
+		fmt.Fprintf(&b, "Definition grid_max_rounds : Z := %d%%Z. (* runtime.go maxGridRounds *)\n", x)
+		fmt.Fprintf(&b, "Definition grid_bound_in_source : bool := true.\n")
+	} else {
+		fmt.Fprintf(&b, "Definition grid_max_rounds : Z := %d%%Z. (* not in runtime.go: value of the proposed fix, evyWidth*scaleFactor*10 *)\n", c.ints["evyWidth"]*c.ints["scaleFactor"]*10)
+		fmt.Fprintf(&b, "Definition grid_bound_in_source : bool := false.\n")
+	}
+	if mu, ok := readMinGridUnit(filepath.Join(c19EvyRepoDir(), "pkg", "evaluator", "builtin.go")); ok {
+		fmt.Fprintf(&b, "Definition grid_min_unit : float := %s. (* builtin.go minGridUnit = %v *)\n", coqFloat(mu), mu)
+	} else {
+		fmt.Fprintf(&b, "Definition grid_min_unit : float := %s. (* not in builtin.go: value of the proposed fix, 0.01 *)\n", coqFloat(0.01))
+	}
 	return os.WriteFile(filepath.Join(dir, "SvgConsts.v"), []byte(b.String()), 0o644)
 }
 
